@@ -683,6 +683,34 @@ impl Kanata {
         self.prev_layer = cur_layer;
         self.print_layer(cur_layer);
         self.macro_on_press_cancel_duration = 0;
+        // State that refers to the previous configuration, or to input from before the reload,
+        // must not leak into the new one: a reload is equivalent to a restart.
+        self.sequence_state = SequenceState::new();
+        self.dynamic_macros.clear();
+        self.dynamic_macro_replay_state = None;
+        self.dynamic_macro_record_state = None;
+        self.override_states = OverrideStates::new();
+        self.caps_word = None;
+        self.scroll_state = None;
+        self.hscroll_state = None;
+        self.move_mouse_state_vertical = None;
+        self.move_mouse_state_horizontal = None;
+        self.move_mouse_speed_modifiers.clear();
+        self.movemouse_buffer = None;
+        self.waiting_for_idle.clear();
+        self.vkeys_pending_release.clear();
+        self.unmodded_keys.clear();
+        self.unmodded_mods = UnmodMods::empty();
+        self.unshifted_keys.clear();
+        self.last_pressed_key = KeyCode::No;
+        // Keys still pressed by the previous configuration would only be released by the next
+        // tick, which may not run until the next input event because an idle kanata blocks.
+        for k in std::mem::take(&mut self.prev_keys) {
+            if let Err(e) = release_key(&mut self.kbd_out, k.into()) {
+                bail!("failed to release key: {:?}", e);
+            }
+        }
+        self.cur_keys.clear();
 
         #[cfg(not(target_os = "linux"))]
         {
